@@ -69,6 +69,7 @@ type recorder struct {
 	// -1 for connections served by the other loops of a multi-loop engine (oracle-only)
 	nextCid     int // next model cid
 	nextGid     int
+	userFds     []int       // descriptors handed to the user by Conn.Dup: the framework must never touch them
 	injectedAcc []string    // faults injected into the main reactor's accept4 calls
 	fdCid       map[int]int // fd -> gid
 	gidM        map[int]int // gid -> mcid
@@ -566,6 +567,11 @@ func (r *recorder) After(c *vunix.Call) {
 					}
 				}
 				args = append(args, tr.I(fd), tr.I(int(c.EvList[i].Events)))
+				// C07 "polls only descriptors it owns": an event for a number the framework has already
+				// closed means its registration outlived the descriptor
+				if _, ok := r.owned[fd]; !ok && fd >= 0 && r.ledgerOn {
+					r.failLocked("fd-not-owned", "loop:epoll_wait-event", fmt.Sprintf("epoll_wait reported descriptor %d, which the framework does not own at this point", fd))
+				}
 			}
 			r.add("op", tr.L("wait", args...))
 		}
